@@ -40,6 +40,15 @@ class ValueAllocator:
         self.new_value_by_old_value[val] = new_val
         return new_val
 
+    def _current_value(self, val: SSAValue) -> SSAValue:
+        """
+        The value that currently stands for `val`, following replacements made by this
+        allocator.
+        """
+        while val in self.new_value_by_old_value:
+            val = self.new_value_by_old_value[val]
+        return val
+
     def allocate_value(self, val: SSAValue) -> SSAValue | None:
         """
         Allocate a register if not already allocated.
@@ -58,6 +67,11 @@ class ValueAllocator:
         If the values passed in are already allocated to differing registers, a
         `DiagnosticException` is raised.
         """
+        # Values may have been replaced by an earlier allocation (for example when one
+        # value takes part in several groups, or occurs twice in a group): use the
+        # current values, each once.
+        vals = tuple(dict.fromkeys(self._current_value(val) for val in vals))
+
         reg_types = set(val.type for val in vals)
         assert all(
             isinstance(reg_type, self.register_base_class) for reg_type in reg_types
